@@ -106,6 +106,7 @@ func (v *Value) UnmarshalNBT(tagType byte, r nbt.DecoderReader) error {
 		}
 
 	case nbt.TagCompound:
+		v.comp.kvs = v.comp.kvs[:0]
 		for {
 			t, name, err := readTag(r)
 			if err != nil {
